@@ -138,8 +138,15 @@ def _(sg, x, A): return x[0].unfold(A["dim"], A["size"], A["step"])
 # ----------------------------------------------------------------------------- executing a case
 def arrays_for(case, dtype=np.float64):
     pats = case.get("pats") or ["generic"] * len(case["shapes"])
-    return [np.asarray(values.make(p, tuple(s), salt=7 * i + case.get("salt", 0)), dtype=dtype)
+    return [np.asarray(vmod(case, p, values.make(p, tuple(s), salt=7 * i + case.get("salt", 0))), dtype=dtype)
             for i, (s, p) in enumerate(zip(case["shapes"], pats))]
+
+VMODS = {"tiny": lambda a: a * 1e-4, "large": lambda a: a * 1e3, "offset": lambda a: a + 1e5}
+
+def vmod(case, pat, a):
+    """value-scale variant of a case (thorough tier): applied to 'generic' operands only"""
+    m = case.get("vmod")
+    return VMODS[m](a) if (m and pat == "generic") else a
 
 def run_lib(case, arrays, rg=None, copy=True):
     """-> (out Tensor, [operand Tensors]).  Raises whatever the library raises.
